@@ -98,7 +98,9 @@ func patByte(attempt int, errStream bool, i int) byte {
 	if errStream {
 		base = 'A'
 	}
-	return base + byte((i+i/26+i/676+i/17576+11*attempt)%26)
+	// a different stride per attempt: the tail of one attempt's stream never looks like the head of another's
+	stride := []int{1, 3, 5, 7, 9, 11}[attempt%6]
+	return base + byte((i*stride+i/26+i/676+i/17576+11*attempt)%26)
 }
 
 func emitMain(args []string) {
@@ -203,7 +205,7 @@ func decode(b []byte, errStream bool) []Run {
 			for o+l < len(b) && b[o+l] == patByte(a, errStream, l) {
 				l++
 			}
-			for n, tries := l, 0; n >= 1 && tries < 6; n, tries = n-1, tries+1 {
+			for n, tries := l, 0; n >= 1 && tries < 40; n, tries = n-1, tries+1 {
 				if rest, ok := parse(o + n); ok {
 					return append([]Run{{Attempt: a, Start: 0, Len: n}}, rest...), true
 				}
@@ -381,6 +383,22 @@ func cleanEnv() []string {
 	return e
 }
 
+// watchdog: 5 s where the model says the step may block for good (output: with more than half a pipe towards the
+// capture pipe); elsewhere a generous 25 s so that a loaded machine is not mistaken for a hang
+func watchdog(c *Case) time.Duration {
+	flow := 0
+	if c.Emit == "out" || c.Emit == "both" {
+		flow += c.Size
+	}
+	if (c.Emit == "err" || c.Emit == "both") && !c.Stderr {
+		flow += c.Size
+	}
+	if c.Output && flow > 32768 {
+		return 5 * time.Second
+	}
+	return 25 * time.Second
+}
+
 func runCase(c *Case, base string) {
 	t0 := time.Now()
 	dir, err := os.MkdirTemp(base, "l")
@@ -412,7 +430,7 @@ func runCase(c *Case, base string) {
 			*c = r
 			c.K = k
 		}
-	case <-time.After(5 * time.Second):
+	case <-time.After(watchdog(c)):
 		_ = syscall.Kill(-cmd.Process.Pid, syscall.SIGKILL)
 		<-doneCh
 		c.Hang = true
